@@ -194,8 +194,11 @@ class Runner:
         return rows, out, err, rc
 
 
-def collect(ck, R, plans, mode, args, stats, check_model=True):
-    """Run, turn oracle failures into hits, replay the rest through the model."""
+def collect(ck, R, plans, mode, args, stats, check_model=True, yield_at=None):
+    """Run, turn oracle failures into hits, replay the rest through the model.  yield_at: where the explorer offers the
+    fiber switch (None/"before": in front of each wrapped operation, "after": behind it, "both")."""
+    if yield_at:
+        args = list(args) + ["--yield-at", yield_at]
     heads, traces = [], []
     todo = dict(plans)
     t_stage = time.time()
@@ -215,7 +218,7 @@ def collect(ck, R, plans, mode, args, stats, check_model=True):
             R.cfg, mode, rc, crashed, todo.get(crashed), san.group(1) if san else ("signal " + m.group(1) if m else (err or out)[-300:]))
         stats["crashes"].append(dict(what=what, key="crash:" + (fail_key(san.group(1)) if san else "signal"),
                             replay=dict(harness="h_c13", config=R.cfg, sticky=R.sticky, scenario=crashed,
-                                        plan=todo.get(crashed), mode=mode, args=list(args),
+                                        plan=todo.get(crashed), mode=mode, args=list(args), yield_at=yield_at,
                                         choices=m.group(2).rstrip(",") if m else None)))
         if crashed is None:
             break
@@ -232,17 +235,23 @@ def collect(ck, R, plans, mode, args, stats, check_model=True):
         if t["fail"]:
             ck.hits.append(dict(what="%s [%s] %s" % (t["scenario"], plans[t["scenario"]], t["fail"]), key=fail_key(t["fail"]),
                                 replay=dict(harness="h_c13", config=R.cfg, sticky=R.sticky, scenario=t["scenario"],
-                                            plan=plans[t["scenario"]], choices=t["choices"], trace=t["trace"])))
+                                            plan=plans[t["scenario"]], choices=t["choices"], trace=t["trace"],
+                                            yield_at=yield_at)))
         else:
             good.append(t)
     stats["distinct"] += len(traces)
-    stats.setdefault("stages", []).append(dict(config=R.cfg, mode=mode, scenarios=len(heads), executions=sum(h["executions"] for h in heads),
+    stats.setdefault("stages", []).append(dict(config=R.cfg, mode=mode, yield_at=yield_at or "before", scenarios=len(heads), executions=sum(h["executions"] for h in heads),
                                                distinct=len(traces), explore_s=round(time.time() - t_stage, 1)))
     if not check_model:
         return traces
     t_stage = time.time()
     terms, metas = [], []
+    seen = stats.setdefault("seen", set())        # (config, plan, trace) already replayed and found equal in an earlier pass
     for t in good:
+        key = (R.cfg, plans[t["scenario"]], t["trace"])
+        if key in seen:
+            stats["validated_again"] = stats.get("validated_again", 0) + 1
+            continue
         plan = M.Plan(plans[t["scenario"]])
         try:
             evs, obs = M.to_events(t["trace"])
@@ -266,6 +275,7 @@ def collect(ck, R, plans, mode, args, stats, check_model=True):
             stats["bad"].append((R.cfg, t, plan, why))
         else:
             stats["validated"] += 1
+            seen.add((R.cfg, plans[t["scenario"]], t["trace"]))
             if nontrivial(t["trace"]):
                 stats["nontrivial"].add(plans[t["scenario"]] + "|" + t["trace"])
             s5 = s5_observation(plan, model)
@@ -346,8 +356,12 @@ def main(ck):
     big = {k: v for k, v in dfs.items() if k in ("await2", "await2_dyn", "awaiton2", "sticky2", "shared_3_main", "shared_2_threads")}
     small = {k: v for k, v in dfs.items() if k not in big}
     all_traces = collect(ck, R, small, "dfs", [], stats)
+    # the same exhaustive sets with the fiber switch offered AFTER each wrapped operation: a fiber is then stopped between
+    # an operation and the plain code that follows it (e.g. between a SubEqual / SetCallback and a plain store after it)
+    all_traces += collect(ck, R, small, "dfs", [], stats, yield_at="after")
     for k, v in big.items():                      # one at a time: each has 10^4..10^5 distinct traces
         all_traces += collect(ck, R, {k: v}, "dfs", ["--max", "1500000"], stats)
+        all_traces += collect(ck, R, {k: v}, "dfs", ["--max", "1500000"], stats, yield_at="after")
     mixes = random_plans(rng, 60 if thorough else 24, sticky)
     # too large to enumerate: sampled
     mixes["shared_2_threads"] = "O0:S:v7:d C0:F:t:co0 C1:F:m:co0"
@@ -356,17 +370,19 @@ def main(ck):
     mixes["awaiton2_shared"] = "X1:q O0:S:v1:d O1:S:v2:d C0:F:m:an1_0+1"
     if sticky:
         mixes["sticky2_mixed"] = "X1:q O0:U:v1:d O1:S:v2:d C0:F:t:on1.as0+1"
-    all_traces += collect(ck, R, mixes, "random", ["--max", "400" if thorough else "120", "--seed", str(ck.seed)], stats)
+    all_traces += collect(ck, R, mixes, "random", ["--max", "400" if thorough else "120", "--seed", str(ck.seed)], stats,
+                          yield_at="both")
     if thorough:
-        # without symmetric transfer: the same small exhaustive set and a third of the mixes, with correspondence
+        # without symmetric transfer: the same small exhaustive sets and a third of the mixes, with correspondence
         RN = Runner(ck, "FN", sticky)
         collect(ck, RN, small, "dfs", [], stats)
+        collect(ck, RN, small, "dfs", [], stats, yield_at="after")
         sub = dict(list(mixes.items())[:20])
-        collect(ck, RN, sub, "random", ["--max", "300", "--seed", str(ck.seed + 1)], stats)
+        collect(ck, RN, sub, "random", ["--max", "300", "--seed", str(ck.seed + 1)], stats, yield_at="both")
         # ASan/UBSan: frame lifetime (oracle + sanitizer only; the traces are the same as under F)
         RA = Runner(ck, "FA", sticky)
-        collect(ck, RA, small, "random", ["--max", "60", "--seed", str(ck.seed + 2)], stats, check_model=False)
-        collect(ck, RA, sub, "random", ["--max", "150", "--seed", str(ck.seed + 3)], stats, check_model=False)
+        collect(ck, RA, small, "random", ["--max", "60", "--seed", str(ck.seed + 2)], stats, check_model=False, yield_at="both")
+        collect(ck, RA, sub, "random", ["--max", "150", "--seed", str(ck.seed + 3)], stats, check_model=False, yield_at="both")
     ck.hits += stats["crashes"]            # oracle verdicts first, dead processes after them
     # ---- evidence
     ck.cov["evaluations"] = stats["executions"]
@@ -375,11 +391,13 @@ def main(ck):
     ck.cov["exhaustive_scenarios"] = "%d of %d DFS scenarios explored completely" % (stats["dfs_exhaustive"], stats["dfs_scenarios"])
     ck.cov["distinct_traces"] = stats["distinct"]
     ck.cov["traces_validated_against_impl"] = stats["validated"]
+    ck.cov["traces_seen_again_in_a_later_pass"] = stats.get("validated_again", 0)
     ck.cov["distinct_nontrivial"] = len(stats["nontrivial"])
     ck.cov["await_sticky_compiles"] = sticky
     ck.cov["rule"] = (
-        "exhaustive DFS over every scheduling decision of the FIBER backend (switch before each wrapped atomic/mutex/condvar "
-        "operation, choice of next fiber) for 1 coroutine x 1 awaited object x 1 producer in every await form (co_await "
+        "exhaustive DFS over every scheduling decision of the FIBER backend (choice of next fiber; fiber switch offered before "
+        "each wrapped atomic/mutex/condvar operation, and in a second complete pass after each one instead, so that a fiber is "
+        "also stopped between an operation and the plain code behind it; random walks offer it at both places) for 1 coroutine x 1 awaited object x 1 producer in every await form (co_await "
         "future/shared future/task, Await/AwaitOn/AwaitSticky variadic and iterator forms, On, Yield, CurrentExecutor; value, "
         "exception, dropped promise; already ready / during / later; executor alive or stopped), 2-3 coroutines on one "
         "SharedFuture, 1 coroutine x 2 objects; seeded random walks (VERIF_SEED) over generated mixes of 2-3 coroutines x 2-4 "
@@ -422,8 +440,10 @@ def replay(ck, path):
     open(pf, "w").write("%s=%s\n" % (rp["scenario"], rp["plan"]))
     if rp.get("choices") is not None:
         args = ["--mode", "replay", "--plans", pf, "--choices", rp["choices"]]
+        if rp.get("yield_at"):
+            args += ["--yield-at", rp["yield_at"]]
     else:
-        args = ["--mode", rp.get("mode", "random"), "--plans", pf] + rp.get("args", [])
+        args = ["--mode", rp.get("mode", "random"), "--plans", pf] + rp.get("args", [])      # args carry --yield-at
     rows, out, err, rc = runner.run_harness(exe, args)
     os.remove(pf)
     print(out)
